@@ -40,10 +40,12 @@ OPS = ['verify', 'verify', 'verify-kg', 'cli-verify', 'update', 'cli-update', 'c
 
 
 def generate(rng, tier, idx):
-    g = GT.gen_tree(rng, {'top': 'Manifest', 'max_files': 6, 'max_dirs': 4, 'p_conflict': 0.0, 'p_dup': 0.05,
-                          'hostile': rng.random() < 0.3})
-    info = g['info']
     op = rng.choice(OPS)
+    g = GT.gen_tree(rng, {'top': 'Manifest', 'max_files': 6, 'max_dirs': 4, 'p_conflict': 0.0, 'p_dup': 0.05,
+                          'hostile': rng.random() < 0.3,
+                          # listed dotfiles / files in dot-directories: verified by the pass that follows the walk
+                          'p_listed_hidden': 0.6 if 'verify' in op else 0.0})
+    info = g['info']
     sc = {'prop': ID, 'order_key': '%016x' % rng.getrandbits(64), 'tree': g['tree'],
           'manifests': g['manifests'], 'op': op, 'muts': []}
     if op == 'verify-sub':
